@@ -290,6 +290,24 @@ def numeric(rng, tier):
                 a3 = pp.metric.rpe(stamps, ref, jit.clone(), est, etype=et, align=True); b3 = pp.metric.rpe(stamps, ref, jit.clone(), G @ est, etype=et, align=True); evals += 2
                 if abs(float(a3['RMSE']) - float(b3['RMSE'])) > 1e-6 * (1 + float(a3['RMSE'])):
                     fails.append(dict(clause='rpe_align_invariance', signature=f'rigid/{et}', a=float(a3['RMSE']), b=float(b3['RMSE'])))
+        # planar trajectories (a ground robot: z = 0, rotations about z): the cross-covariance of the alignment has rank 2 and its SVD lands in
+        # the reflection case for about half of the rigid placements of the estimate - the aligned errors must not depend on the placement
+        if n >= 4:
+            ang = torch.cumsum(0.2 * torch.randn(n, dtype=d), 0); xy = torch.cumsum(torch.rand(n, 2, dtype=d), 0)
+            def planar(xy_, ang_):
+                q = torch.stack([torch.zeros_like(ang_), torch.zeros_like(ang_), torch.sin(ang_ / 2), torch.cos(ang_ / 2)], -1)
+                return pp.SE3(torch.cat([xy_, torch.zeros(len(ang_), 1, dtype=d), q], -1))
+            pref = planar(xy, ang); pest = planar(xy + 0.02 * torch.randn(n, 2, dtype=d), ang + 0.01 * torch.randn(n, dtype=d))
+            for trial in range(3):
+                Gp = pp.randn_SE3(dtype=d)
+                for et in ('translation', 'rotation'):
+                    for sc_ in (False, True):
+                        try:
+                            a5 = pp.metric.ape(stamps, pref, stamps, pest, etype=et, align=True, scale=sc_); b5 = pp.metric.ape(stamps, pref, stamps, Gp @ pest, etype=et, align=True, scale=sc_); evals += 2
+                        except Exception as e:
+                            fails.append(dict(clause='ape_raises', signature=f'planar/{et}/scale={sc_}', error=f'{type(e).__name__}: {e}'[:160])); continue
+                        if abs(float(a5['RMSE']) - float(b5['RMSE'])) > 1e-6 * (1 + float(a5['RMSE'])) or abs(float(a5['Max']) - float(b5['Max'])) > 1e-6 * (1 + float(a5['Max'])):
+                            fails.append(dict(clause='ape_align_invariance', signature=f'planar trajectory/{et}/scale={sc_}', a=float(a5['RMSE']), b=float(b5['RMSE'])))
         # rpe with every pairing option (frame / distance association, all pairs or consecutive, pairs taken from the reference): the pairing
         # depends on the SHAPE of the trajectory only, so rpe stays invariant under left multiplication - also for a trajectory that starts
         # close to the origin (closer than delta) and is moved away from it
@@ -323,6 +341,20 @@ def numeric(rng, tier):
         if float(((Hh @ out).matrix() - o2.matrix()).abs().max()) > 1e-8: fails.append(dict(clause='bspline_equivariance', signature=f'itv={itv}'))
         if m >= 5 and float((out.matrix()[kk] - pp.bspline(poses[1:], interval=itv).matrix()[0]).abs().max()) > 1e-8:
             fails.append(dict(clause='bspline_continuity', signature=f'itv={itv}'))
+        # bspline on GENERIC poses (consecutive relative twists do not commute): the curve is continuous across the knots - the step from the
+        # last sample of a segment to the first of the next is of the size of the steps inside the segments (interval 0.01)
+        gp = pp.randn_SE3(6, sigma=0.8, dtype=d)
+        go = pp.bspline(gp, interval=0.01).matrix(); evals += 1
+        gstep = (go[1:] - go[:-1]).abs().amax((-1, -2))
+        kg = 100
+        knots = [j * kg - 1 for j in range(1, (go.shape[0] - 1) // kg)]           # step index from u = 0.99 of segment j-1 to u = 0 of segment j
+        inner = torch.ones_like(gstep, dtype=torch.bool); inner[knots] = False
+        if knots and float(gstep[knots].max()) > 3 * float(gstep[inner].max()) + 1e-9:
+            fails.append(dict(clause='bspline_continuous_across_segments', signature='generic poses, interval 0.01', jump=float(gstep[knots].max()), inner_step=float(gstep[inner].max())))
+        # ... and equivariant under left multiplication (generic poses)
+        Hg = pp.randn_SE3(dtype=d)
+        if float(((Hg @ pp.bspline(gp, interval=0.25)).matrix() - pp.bspline(Hg @ gp, interval=0.25).matrix()).abs().max()) > 1e-8:
+            fails.append(dict(clause='bspline_equivariance', signature='generic poses'))
         # chspline: sample count and interpolation for float intervals
         pts = torch.randn(rng.randrange(2, 20), 3, dtype=d)
         o = pp.chspline(pts, interval=itv); evals += 1
@@ -356,3 +388,11 @@ def canary(env):
     env.assume('generic regime', (T.linalg.norm(e[0:3], dim=-1) > env.eps(x)) & (e[3] > env.eps(x)))
     th = ls.geodesic_loss(lie(pp, 'SO3', x.reshape(1, 4)), lie(pp, 'SO3', y.reshape(1, 4)), reduction='none')
     env.eq('chordal distance instead of the angle', th.reshape(()), 2 * T.linalg.norm(e[0:3], dim=-1))
+
+
+# ape / rpe with align(/scale) hand the alignment to svdstf: "ape with align is unchanged by a rigid / similarity transform of the estimate"
+# rests on svdstf returning THE least-squares similarity (both determinant cases of the SVD) - its contract in c17_align.py, discharged in
+# this check too.  (A planar trajectory puts the SVD into the reflection case for about half of the rigid placements of the estimate.)
+from contracts import c17_align as _c17
+obligation('C19.callee.svdstf', functions=['pypose.function.geometry:svdstf'], max_paths=16, no_validate=True, tol=1e-7, cex_samples=100,
+           note='callee contract of ape/rpe(align=True) (same contract function as C17.svdstf)')(_c17.svdstf)
